@@ -5,9 +5,14 @@ from vlib import *
 
 def extract_replay(out, path, mode="w"):
     n = 0
+    seen = set()
     with open(path, mode) as f:
         for m in re.finditer(r'^<<"REPLAY", "(.*)">>$', out, re.M):
-            f.write(m.group(1).replace('\\"', '"').replace('\\\\', '\\') + "\n")
+            line = m.group(1).replace('\\"', '"').replace('\\\\', '\\')
+            if line in seen:
+                continue
+            seen.add(line)
+            f.write(line + "\n")
             n += 1
     return n
 
@@ -19,7 +24,11 @@ def spec_to_impl(res, prop, module, cfgs, replay_cmd, wd, label, workers=8, time
     states = trans = 0
     per_cfg = {}
     for cfg in cfgs:
-        r = run_mc(module, cfg, workers=workers, timeout=timeout, coverage=False, name=f"{prop}_{cfg}")
+        sim = None
+        if isinstance(cfg, tuple):
+            cfg, sim = cfg
+        r = run_mc(module, cfg, workers=1 if sim else workers, timeout=timeout, coverage=False, name=f"{prop}_{cfg}",
+                   simulate=sim[0] if sim else None, depth=sim[1] if sim else None)
         n = extract_replay(r["out"], beh, "a")
         states += r.get("states", 0)
         trans += r.get("transitions", 0)
@@ -276,4 +285,40 @@ def c19(tier, seed):
                             "non-trivial = faults that leave the file parseable as JSON + all round trips; quick samples byte offsets by seed, thorough takes all",
                     "samples": [{k: e[k] for k in e if k not in ("pairs", "text", "P", "A")} for e in sample(lines, 3)],
                     "by_kind": kinds, "trace_events": v["events"], "exhaustive": tier == "thorough"}
+    return res
+
+
+def c17(tier, seed):
+    res = Result("C17", tier, seed, "model_checking")
+    wd = workdir("C17")
+    # union-find: implementation-level model, behaviours replayed on the real struct (arrays compared after every operation)
+    q = tier == "quick"
+    cfgs = ["MC_DSU.cfg", ("MC_DSU_tall.cfg", (150 if q else 3000, 12)), ("MC_DSU_sim.cfg", (800 if q else 20000, 16))]
+    r = spec_to_impl(res, "C17", "DSU.tla", cfgs, "dsu-replay", wd, "dsu", workers=8)
+    # clique trees: impl -> spec
+    tr, mt = os.path.join(wd, "chordal.ndjson"), os.path.join(wd, "chordal.meta.json")
+    p = run_vh(["chordal", "--seed", seed, "--tier", tier, "--out", tr, "--meta", mt], check=False, timeout=6 * 3600)
+    if p.returncode == 3:
+        hang = json.load(open(tr + ".hang.json"))
+        res.violation(f"hang-s{seed}", {"kind": "chordal-event", "prop": "C17", "event": hang}, "chordal analysis did not return within the watchdog limit: " + json.dumps(hang)[:300],
+                      key="hang")
+        res.coverage = {"states": r["states"], "transitions": max(1, r["transitions"]), "traces_validated_against_impl": r["behaviours"], "samples": r["samples"]}
+        return res
+    if p.returncode != 0:
+        sys.stdout.write(p.stderr[-2000:])
+        raise ToolError("chordal recorder failed")
+    meta = json.load(open(mt))
+    v = impl_to_spec(res, "C17", "Chordal.tla", "Chordal.cfg", tr, "chordal", nshards=12,
+                     keyfn=lambda e: ("panic:" + str(e.get("msg", ""))[:40].replace(" ", "_")) if e.get("ev") == "Panic" else "invalid_tree:" + str(e.get("merge")))
+    lines = read_ndjson(tr)
+    res.coverage = {"states": r["states"] + v["states"], "transitions": max(1, r["transitions"] + v["transitions"]),
+                    "traces_validated_against_impl": r["behaviours"] + v["events"],
+                    "evaluations": r["behaviours"] + v["events"], "distinct_nontrivial": meta["multi_clique"] + r["distinct_nontrivial"],
+                    "rule": "union-find: every behaviour of DSU.tla (all ordered union histories of length 4 on 5 elements; adversarial equal-rank schedules "
+                            "and random operation sequences on 8 elements by TLC simulation) replayed on the real struct with parent/rank arrays compared "
+                            "after every operation; clique trees: every graph on <= 5 vertices (6-7 sampled / thorough exhaustive to 6) x 3 merge strategies "
+                            "plus random banded/arrow/block/sparse/chordal graphs up to 60 (300 thorough) vertices analysed by the real code under a watchdog, "
+                            "each returned tree checked by TLC against Chordal.tla; non-trivial = analysis yields more than one clique / history with >= 2 real unions",
+                    "per_cfg": r["per_cfg"], "chordal_meta": meta, "samples": r["samples"][:1] + [lines[len(lines) // 2]], "exhaustive": False,
+                    "trusted_base": ["TLC", "replayer array comparison"]}
     return res
